@@ -23,8 +23,82 @@ def _used_buses(sc):
     return used
 
 
+def _cand_retry(sc):
+    for i in range(len(sc['outcomes'])):
+        if len(sc['outcomes']) > 1:
+            s = copy.deepcopy(sc)
+            del s['outcomes'][i]
+            yield s
+    if sc['retries'] > 0:
+        s = copy.deepcopy(sc)
+        s['retries'] -= 1
+        yield s
+    if sc.get('stalls'):
+        s = copy.deepcopy(sc)
+        s['stalls'] = []
+        yield s
+    if sc.get('cancel_at') is not None:
+        s = copy.deepcopy(sc)
+        s['cancel_at'] = None
+        yield s
+    if sc.get('retry_on') is not None:
+        s = copy.deepcopy(sc)
+        s['retry_on'] = None
+        yield s
+    for key, simple in (('wait', 1), ('backoff', 1.0), ('timeout', 1)):
+        if sc[key] != simple:
+            s = copy.deepcopy(sc)
+            s[key] = simple
+            yield s
+    for i, o in enumerate(sc['outcomes']):
+        if o[0] in ('raise', 'ok', 'raise_timeout') and o[1] != 0.0:
+            s = copy.deepcopy(sc)
+            s['outcomes'][i][1] = 0.0
+            yield s
+
+
+def _cand_sem(sc):
+    if len(sc['loops']) > 1:
+        for i in range(len(sc['loops'])):
+            s = copy.deepcopy(sc)
+            del s['loops'][i]
+            yield s
+    for li, lp in enumerate(sc['loops']):
+        for ci in range(len(lp['callers'])):
+            if len(lp['callers']) > 1:
+                s = copy.deepcopy(sc)
+                del s['loops'][li]['callers'][ci]
+                yield s
+    for li, lp in enumerate(sc['loops']):
+        for ci, c in enumerate(lp['callers']):
+            if c.get('cancel_at') is not None:
+                s = copy.deepcopy(sc)
+                s['loops'][li]['callers'][ci]['cancel_at'] = None
+                yield s
+            if c['arrive'] != 0.0:
+                s = copy.deepcopy(sc)
+                s['loops'][li]['callers'][ci]['arrive'] = 0.0
+                yield s
+            if c['body'] != ['ok', 0.5]:
+                s = copy.deepcopy(sc)
+                s['loops'][li]['callers'][ci]['body'] = ['ok', 0.5]
+                yield s
+    for fi, f in enumerate(sc['funcs']):
+        for key, simple in (('retries', 0), ('scope', 'global'), ('lax', False)):
+            if f[key] != simple:
+                s = copy.deepcopy(sc)
+                s['funcs'][fi][key] = simple
+                yield s
+
+
 def candidates(sc):
     """Yield simpler variants of sc, most aggressive first."""
+    if sc.get('world') == 'retry':
+        yield from _cand_retry(sc)
+        return
+    if sc.get('world') == 'sem':
+        yield from _cand_sem(sc)
+        return
     # drop a caller
     for i in range(len(sc['callers'])):
         if len(sc['callers']) > 1:
